@@ -52,6 +52,7 @@ class Store(object):
     def __init__(self, cfg):
         self.cls = list(cfg["classes"])
         self.names = names_of(cfg)
+        self.xl = None
         self.target = list(cfg["targets"])
         self.attrs = []
         for i, c in enumerate(self.cls):
@@ -113,6 +114,9 @@ def pre_gen_factory(store):
             if "HNodeRO" in store.cls and rng.random() < 0.15:
                 return {"op": "setattr", "n": rng.choice(links) if links else i, "k": "ro", "v": step}
             return {"op": "setattr", "n": i, "k": k, "v": v}
+        if 0.88 < r <= 0.93:
+            # a link (outside the universe's forest) to a node of the other mixin: a tree node like any other
+            return {"op": "xlink", "n": 0, "k": rng.choice(NAMES), "v": rng.choice((step, "x%d" % step, None, 0))}
         links_now = [j for j in range(n) if store.cls[j] in LINK_CLASSES]
         if links_now and r > 0.93:
             # re-point an existing link (target is the link's own attribute); never onto itself or onto a
@@ -189,6 +193,25 @@ def run(cfg, ops=None, rng=None):
     def handle(step, world, model, res, op):
         i, k = op["n"], op.get("k")
         node = world.nodes[i]
+        if op["op"] == "xlink":
+            try:
+                if store.xl is None:
+                    from .world import HLightDict, make_node
+
+                    t = HLightDict("ext")
+                    store.xl = (make_node("PSym" if "PSym" in cfg["menu"] else "HSym", None, target=t), t, {"name": "ext"})
+                link, t, have = store.xl
+                setattr(link, k, op["v"])
+                have[k] = op["v"]
+                bad = [a for a in sorted(have) if getattr(link, a) is not have[a] or getattr(t, a) is not have[a]]
+                own = (link.parent, link.children, t.parent, t.children)
+            except Exception as exc:  # noqa: BLE001
+                raise Violation("C20", "forward", step, "forward:light-target:" + type(exc).__name__,
+                                "step %d %s: a link to a LightNodeMixin node raised %s: %s" % (step, op, type(exc).__name__, exc))
+            res.bump("links_to_light_nodes_ops")
+            if bad or own != (None, (), None, ()):
+                raise Violation("C20", "forward", step, "forward:light-target", "step %d %s: through a link to a LightNodeMixin node: attributes %r differ, positions %r" % (step, op, bad, own))
+            return
         if op["op"] == "retarget":
             j, t = op["n"], op["t"]
             if j < len(store.cls) and t < len(store.cls) and store.cls[j] in LINK_CLASSES and t != j and not store.reaches(t, j):
